@@ -107,11 +107,13 @@ class Sut:
         )
         return f"D {d} |{recs}"
 
-    def res(self, r) -> str:
+    def res(self, r, kind="") -> str:
+        if kind == "attr":
+            return "val:" + cval(r)
+        if kind == "del":
+            return "True" if r is True else "val:" + cval(r)
         if r is None:
             return "None"
-        if r is True:
-            return "True"
         if isinstance(r, self.rmod.Repeater):
             return f"obj{self.index(r)}"
         return "val:" + cval(r)
@@ -121,6 +123,7 @@ class Sut:
         """returns (driver line, canonical result incl. len, raw result or exception)"""
         kind = op[0]
         st = self.storage
+        pre = "pre-ok" if not violates_pre(self, op) else "pre-violated"
         try:
             if kind == "mi":
                 _, a, auto, p = op
@@ -156,13 +159,13 @@ class Sut:
                 r = self.created[ref].patch(dict(p))
             else:
                 raise AssertionError(kind)
-            out = self.res(r)
+            out = self.res(r, kind)
         except AssertionError:
             raise
         except BaseException as e:  # noqa: the real code's exception is an outcome
             r = e
             out = impl_error(e)
-        return line, f"{out} {len(st)}", r
+        return line, f"{out} {len(st)} {pre}", r
 
 
 # ------------------------------------------------------------------------------------------------
@@ -186,6 +189,20 @@ def expected_after_patch(fields, attrs, p):
         elif v is not None:
             attrs[k] = v
     return fields, attrs
+
+
+def fresh_fields(index, address):
+    return {
+        "id": _uuid.UUID(int=index),
+        "address_in": address,
+        "address_out": ("", 0),
+        "address_nat": ("", 0),
+        "snmp_enabled": True,
+        "nat_enabled": False,
+        "dmr_id": None,
+        "callsign": "",
+        "serial": "",
+    }
 
 
 class Oracle:
@@ -239,7 +256,8 @@ class Oracle:
                     self.fail("creation-rule", "auto-creating lookup of an unseen address did not return a new record")
                 else:
                     target = raw
-                    self.snap0.append(({f: getattr(raw, f) for f in FIELDS} | {"address_in": op[1]}, {}))
+                    # what "a record is created" means: constructor defaults, the id of the oracle, this address
+                    self.snap0.append((fresh_fields(self.created0, op[1]), {}))
             else:
                 okres = (raw is None) if not op[3] else (raised and type(raw).__name__ == "AttributeError")
                 if not okres:
@@ -345,6 +363,8 @@ CROSS_ALPHABET = [
 def violates_pre(sut, op):
     """the two preconditions of the theorems (DESIGN §5 C20), evaluated on the real state"""
     p = patch_of(op)
+    if op[0] == "save" and op[1] is None:
+        return False  # nothing is patched: raises (non-empty patch) or returns None
     if "id" in p:
         return True
     if "address_in" in p:
@@ -358,12 +378,15 @@ def violates_pre(sut, op):
     return False
 
 
-def applicable(sut, op):
-    if op[0] in ("save",) and op[1] is not None and op[1] >= len(sut.created):
-        return False
-    if op[0] in ("attr", "del", "patch") and op[1] >= len(sut.created):
-        return False
-    return True
+def resolve(sut, op):
+    """object references of the pools are creation indices; a reference beyond the objects created so far
+    denotes the youngest object; with no object at all the operation (hence the sequence) is inapplicable"""
+    if op[0] in ("save", "attr", "del", "patch") and op[1] is not None:
+        if not sut.created:
+            return None
+        if op[1] >= len(sut.created):
+            return (op[0], len(sut.created) - 1) + tuple(op[2:])
+    return op
 
 
 def run_sequence(ctx, ops, pairs, stream, dump_every=0):
@@ -374,7 +397,8 @@ def run_sequence(ctx, ops, pairs, stream, dump_every=0):
         oracle = Oracle(ctx, sut, history) if stream == "ok" else None
         local = [("reset", "ok")]
         for n, op in enumerate(ops):
-            if not applicable(sut, op):
+            op = resolve(sut, op)
+            if op is None:
                 return False
             if stream == "ok" and violates_pre(sut, op):
                 return False
@@ -535,6 +559,16 @@ def flush(ctx, component, pairs):
 
 
 def run(ctx):
+    import logging
+
+    logging.disable(logging.CRITICAL)  # the storage logs a critical line per duplicate match
+    try:
+        _run(ctx)
+    finally:
+        logging.disable(logging.NOTSET)
+
+
+def _run(ctx):
     ctx.rule = (
         "histories of the eight storage operations on a fresh RepeaterStorage: a corpus, every sequence up to "
         "length 5 (quick) / 6 (thorough) over four pools of 8 operations (3 addresses, two sharing an IP; patches with "
